@@ -801,3 +801,78 @@ def feval(t, env):
         if "<impl f64>" in t[1] and name == "powi":
             return feval(t[2][0], env) ** int(ieval(None, t[2][1], {}))
     raise Undetermined(tag)
+
+
+# ---------------------------------------------------------------------- closures handed to iterator adaptors
+
+ADAPTORS_ELEMENTWISE = ("::map", "::for_each", "::filter_map", "::flat_map", "::try_for_each", "::inspect", "::filter", "::any", "::all", "::find", "::position")
+
+
+def closures_of(facts, path):
+    """paths of the closure bodies defined (directly or nested) inside function `path`"""
+    pre = path + "::{closure"
+    return sorted(p for p, f in facts.fns.items() if p.startswith(pre) and f["kind"] == "Closure")
+
+
+def closure_parent(facts, cpath):
+    p = cpath
+    while "::{closure" in p:
+        p = p[:p.rindex("::{closure")]
+        if p in facts.fns and facts.fns[p]["kind"] != "Closure":
+            return p
+    return None
+
+
+def closure_sites(facts, cpath):
+    """[(owner FnTerms, CallSite, argument index, closure aggregate term)] where the closure value is created and passed"""
+    out = []
+    owner = cpath[:cpath.rindex("::{closure")]
+    if owner not in facts.fns:
+        return out
+    ft = fn_terms(facts, owner)
+    for c in ft.calls():
+        for i, a in enumerate(c.args):
+            y = a
+            while y[0] == "ref":
+                y = y[2]
+            if y[0] == "agg" and y[1] == "closure" and y[2] == cpath:
+                out.append((ft, c, i, y))
+    return out
+
+
+def closure_subst(facts, cpath, t, _depth=0):
+    """rewrite a term of a closure body into the terms of the function that creates the closure: captured variables
+    become the captured values; the closure's own item parameter stays ('param', 2).  None if the closure is created
+    at more than one place."""
+    sites = closure_sites(facts, cpath)
+    if len(sites) != 1:
+        return None
+    _ft, _c, _i, agg = sites[0]
+    caps = agg[3]
+
+    def go(x):
+        if not isinstance(x, tuple) or not x:
+            return x
+        if x[0] == "field" and isinstance(x[2], int) and x[2] < len(caps):
+            b = x[1]
+            if b == ("param", 1) or (b[0] == "deref" and b[1] == ("param", 1)):
+                return caps[x[2]]
+        if x[0] == "deref":
+            inner = go(x[1])
+            if inner[0] == "ref":
+                return inner[2]
+            return ("deref", inner)
+        return tuple(go(y) for y in x)
+    return go(t)
+
+
+def closure_item_source(facts, cpath):
+    """(owner FnTerms, iterator term) when the closure is the element function of map/for_each/... : its item
+    parameter ranges over the elements of that iterator, in order"""
+    sites = closure_sites(facts, cpath)
+    if len(sites) != 1:
+        return None
+    ft, c, i, _agg = sites[0]
+    if c.callee and any(c.callee.endswith(s) for s in ADAPTORS_ELEMENTWISE) and i == 1 and len(c.args) == 2:
+        return ft, c.args[0]
+    return None
